@@ -17,6 +17,7 @@ import Scico.Proofs.LinOps8
 import Scico.Proofs.LinOps9
 import Scico.Proofs.LinOps10
 import Scico.Proofs.LinOps11
+import Scico.Proofs.LinOps12
 import Mathlib.Data.Complex.Basic
 import Mathlib.Tactic.NormNum
 
@@ -765,5 +766,51 @@ theorem C04_proj_grad_fd (N : Nat) (x : V K) (i : Nat) (hi : i < N) (l : List (V
 example : (List.range 4).map (projEval (α := Int) ([((fun _ => 1), 1, 2, 2), ((fun _ => 2), 2, 2, 1)].map (fun s : V Int × Nat × Nat × Nat =>
     (s.1, alongAxis s.2.2.1 (fdOutLen diffstackCfg s.2.2.1) s.2.2.2 (fdEval diffstackCfg s.2.2.1) (fun j => [1, 2, 4, 8].getD j 0)))))
     = [5, 6, 8, 0] := by decide
+
+
+/-! ### 3-D X-ray projector: the voxel footprint split (known finding `xray3d-integer-edge`) -/
+
+section X3
+variable {F : Type} [Field F] [LinearOrder F] [IsStrictOrderedRing F]
+
+/-- documented split of a voxel footprint `[le, le + w]` between its first bin `floor(le)` and the next one: the
+    first share is the length of the overlap with the first bin, positive and at most `w` (the complement
+    `w − share` goes to the next bin; the 2-D weights are products of two such splits divided by `w²`). -/
+theorem C04_xray3d_split_documented (fl : F → Int) (hfl : FloorContract fl) (w le : F) (hw : 0 < w) :
+    x3ToNextDoc fl (fun z => (z : F)) 1 w le = min (((fl le : Int) : F) + 1) (le + w) - le
+    ∧ 0 < x3ToNextDoc fl (fun z => (z : F)) 1 w le ∧ x3ToNextDoc fl (fun z => (z : F)) 1 w le ≤ w :=
+  x3_doc_overlap fl hfl w le hw
+
+/-- proved part for the code as it is (`to_next = minimum(ceil(le) − le, w)`): it IS the documented split whenever
+    the left edge of the footprint is not on a bin edge.  Missing for the full statement: integer `le`. -/
+theorem C04_xray3d_split_partial (fl cl : F → Int) (hfl : FloorContract fl) (hcl : CeilContract cl) (w le : F)
+    (hne : ((fl le : Int) : F) < le) :
+    x3ToNextCoded cl (fun z => (z : F)) w le = x3ToNextDoc fl (fun z => (z : F)) 1 w le :=
+  x3_coded_eq_doc fl cl hfl hcl w le hne
+
+/-- negation witness for the code as it is: when the left edge lies ON a bin edge `z` the coded share of bin `z`
+    is `0` — the whole footprint `[z, z + w] ⊂ [z, z + 1]` is credited to bin `z + 1` (and is lost when `z + 1` is
+    off the detector) — whereas the documented share is `w`.  `fixes/xray3d-integer-edge.patch`. -/
+theorem C04_xray3d_integer_edge_fails (fl cl : F → Int) (hfl : FloorContract fl) (hcl : CeilContract cl) (w : F)
+    (z : Int) (hw : 0 < w) (hw1 : w ≤ 1) :
+    x3ToNextCoded cl (fun z => (z : F)) w (z : F) = 0 ∧ x3ToNextDoc fl (fun z => (z : F)) 1 w (z : F) = w
+    ∧ x3ToNextCoded cl (fun z => (z : F)) w (z : F) ≠ x3ToNextDoc fl (fun z => (z : F)) 1 w (z : F) := by
+  obtain ⟨h1, h2⟩ := x3_coded_integer_edge fl cl hfl hcl w z hw hw1
+  exact ⟨h1, h2, by rw [h1, h2]; exact hw.ne⟩
+
+end X3
+
+/-- FULL statement (NOT claimed for the code as it is): the coded split is the documented one for every left edge. -/
+def C04_xray3d_split_stmt : Prop :=
+  ∀ (fl cl : ℚ → Int), FloorContract fl → CeilContract cl → ∀ w le : ℚ, 0 < w → w ≤ 1 →
+    x3ToNextCoded cl (fun z => (z : ℚ)) w le = x3ToNextDoc fl (fun z => (z : ℚ)) 1 w le
+
+example : CeilContract (K := ℚ) Rat.ceil := fun z => by
+  constructor
+  · have h : ¬ Rat.ceil z ≤ Rat.ceil z - 1 := by omega
+    rw [Rat.ceil_le_iff] at h
+    push_cast at h
+    exact not_le.mp h
+  · exact Rat.ceil_le_iff.mp (Int.le_refl _)
 
 end Scico.Props.C04
